@@ -322,11 +322,11 @@ fn abs_inplace_case(fmt_ix: usize) -> Bad {
                 .filter(|a: &i128| *a >= -h && *a < h)
                 .collect();
             // added amplitude, in the Signed companion's units
-            let add: Vec<i128> = [0, 1, -1, 3, -255, 257, -256, 768, -769, 65_537, -65_535, hs / 4 + 1, -hs / 4 - 1]
+            let add: Vec<i128> = [0, 1, -1, 3, -255, 257, -256, 768, -769, 65_537, -65_535, hs / 4 + 1, -hs / 4 - 1, hs / 2 + 1, -hs / 2 - 1, hs - 1, -hs]
                 .into_iter()
                 .filter(|a: &i128| *a >= -hs && *a < hs)
                 .collect();
-            for (g0, g1) in [(1.0f64, 1.0f64), (0.5, -1.0), (0.25, 0.0), (-0.5, 0.75)] {
+            for (g0, g1) in [(1.0f64, 1.0f64), (0.5, -1.0), (0.25, 0.0), (-0.5, 0.75), (2.0, 2.0), (-1.0, -1.0), (0.5, 0.5)] {
                 let plain = g0 == 1.0 && g1 == 1.0;
                 let mut a: Vec<[$S; 2]> = Vec::new();
                 let mut b: Vec<[$SG; 2]> = Vec::new();
@@ -339,10 +339,22 @@ fn abs_inplace_case(fmt_ix: usize) -> Bad {
                             let ys = if plain { Some(y) } else { sample_mul(sg, y, g) }?;
                             sample_add(fmt, from_amp(fmt, x), ys)
                         };
+                        let fa: [$S; 2] = [mk(from_amp(fmt, x)), mk(from_amp(fmt, x1))];
+                        let fb: [$SG; 2] = [mkg(y), mkg(y1)];
                         if let (Some(e0), Some(e1)) = (e(x, y, g0), e(x1, y1, g1)) {
-                            a.push([mk(from_amp(fmt, x)), mk(from_amp(fmt, x1))]);
-                            b.push([mkg(y), mkg(y1)]);
+                            a.push(fa);
+                            b.push(fb);
                             exp.push([e0, e1]);
+                        } else if !plain {
+                            // the scaled amplitude or the sum leaves the format: outside the arithmetic
+                            // law's domain, but the slice operation must still equal the element-wise
+                            // frame operation, whatever that yields (saturation) or does (panic)
+                            let gf: [$FL; 2] = [g0 as $FL, g1 as $FL];
+                            if let Ok(r) = catch(|| fa.add_amp(fb.mul_amp(gf))) {
+                                a.push(fa);
+                                b.push(fb);
+                                exp.push([raw(r[0]), raw(r[1])]);
+                            }
                         }
                     }
                 }
@@ -355,7 +367,7 @@ fn abs_inplace_case(fmt_ix: usize) -> Bad {
                 for i in 0..a.len() {
                     for c in 0..2 {
                         let got: i128 = raw(a[i][c]);
-                        if got != exp[i][c] || !in_range(fmt, got) {
+                        if got != exp[i][c] {
                             return bad(
                                 "inplace.abs",
                                 format!(
@@ -390,6 +402,49 @@ fn abs_inplace_case(fmt_ix: usize) -> Bad {
     }
 }
 
+/// The same for float frames, against native float arithmetic a + b * g (floats may exceed [-1, 1];
+/// values chosen around rounding boundaries so that "add twice" or "scale after adding" differ).
+fn float_inplace_case(wide: bool) -> Bad {
+    macro_rules! run {
+        ($T:ty, $name:expr) => {{
+            let tiny = <$T>::EPSILON / 2.0;
+            let dest: Vec<$T> = vec![0.0, 1.0, -1.0, 0.5, 1.0e-3, 1.0 + <$T>::EPSILON, 0.75, -0.25, 3.5];
+            let add: Vec<$T> = vec![0.0, tiny, tiny / 2.0, 3.0 * tiny / 2.0, -tiny, 0.75, -0.75, 1.0, 0.3, 1.0e-3, 2.5];
+            for (g0, g1) in [(1.0, 1.0), (0.5, -1.0), (0.25, 0.0), (-0.5, 0.75), (2.0, 2.0), (-1.0, -1.0), (0.5, 0.5), (3.0, 3.0)] {
+                let (g0, g1) = (g0 as $T, g1 as $T);
+                let mut a: Vec<[$T; 2]> = Vec::new();
+                let mut b: Vec<[$T; 2]> = Vec::new();
+                for &x in &dest {
+                    for &y in &add {
+                        a.push([x, -x]);
+                        b.push([y, y]);
+                    }
+                }
+                let before = a.clone();
+                if let Err(p) = catch(|| dasp_slice::add_in_place_with_amp_per_channel(&mut a, &b, [g0, g1])) {
+                    return bad("inplace.abs", format!("[{};2] add_in_place_with_amp_per_channel(gain [{g0}, {g1}]) panicked: {p}", $name));
+                }
+                for i in 0..a.len() {
+                    let exp = [before[i][0] + b[i][0] * g0, before[i][1] + b[i][1] * g1];
+                    if a[i][0].to_bits() != exp[0].to_bits() || a[i][1].to_bits() != exp[1].to_bits() {
+                        return bad("inplace.abs", format!("[{};2] add_in_place_with_amp_per_channel(gain [{g0}, {g1}]): {:?} plus {:?} gave {:?}, native float arithmetic a + b * g gives {exp:?}", $name, before[i], b[i], a[i]));
+                    }
+                }
+                let mut a2 = before.clone();
+                if catch(|| dasp_slice::add_in_place(&mut a2, &b)).is_err() || (0..a2.len()).any(|i| a2[i][0].to_bits() != (before[i][0] + b[i][0]).to_bits() || a2[i][1].to_bits() != (before[i][1] + b[i][1]).to_bits()) {
+                    return bad("inplace.abs", format!("[{};2] add_in_place differs from native float addition", $name));
+                }
+            }
+            None
+        }};
+    }
+    if wide {
+        run!(f64, "f64")
+    } else {
+        run!(f32, "f32")
+    }
+}
+
 fn inplace_dispatch(name: &str, la: usize, lb: usize) -> Bad {
     match name {
         "[f32;2]" => inplace_case::<[f32; 2], [f32; 2], [f32; 2]>(name, la, lb, |i| [i as f32 * 0.125 - 0.5, 0.25 - i as f32 * 0.0625], |i| [0.0625 * i as f32, -0.125], [0.5, -1.0]),
@@ -411,7 +466,9 @@ fn main() {
     let table = build_table();
     if let Some(v) = ctx.replay_case() {
         let _guard_scope = guard::scoped(&v.to_string());
-        let r = if v["sys"] == "inplace_abs" {
+        let r = if v["sys"] == "inplace_float" {
+            float_inplace_case(v["wide"].as_bool().unwrap_or(false))
+        } else if v["sys"] == "inplace_abs" {
             abs_inplace_case(v["fmt_ix"].as_u64().unwrap_or(0) as usize)
         } else if v["sys"] == "inplace" {
             inplace_dispatch(v["frame"].as_str().unwrap_or(""), v["la"].as_u64().unwrap_or(0) as usize, v["lb"].as_u64().unwrap_or(0) as usize)
@@ -474,7 +531,17 @@ fn main() {
             Err(p) => ctx.violation("inplace.panic", case, format!("[{};2] absolute in-place check: unexpected panic: {p}", ABS_FORMATS[fmt_ix]), None),
         }
     }
-    ctx.rule("in-place ops against independent arithmetic: all 12 integer formats as 2-channel frames, add_in_place and add_in_place_with_amp_per_channel (4 gain frames) over every pair of a destination amplitude (0, +-1, the byte / 16-bit carries +-255..257, 65535, 100003, both extremes and their neighbours, half scale) and an added amplitude in the Signed companion's units (0, +-1, 3, -255, 257, -256, 768, -769, ...), result == add in the Signed companion of the value scaled in the Float companion with correctly rounded conversions (common::refmodel), pairs whose mathematical result leaves the format excluded");
+    for wide in [false, true] {
+        let case = json!({"sys": "inplace_float", "wide": wide});
+        let _guard_scope = guard::scoped(&case.to_string());
+        evals += 1;
+        match catch(|| float_inplace_case(wide)) {
+            Ok(None) => ctx.observe(common::fnv_str(&format!("ipfloat{wide}"))),
+            Ok(Some((k, m))) => ctx.violation(&k, case, m, Some(&|| float_inplace_case(wide).map(|x| x.1))),
+            Err(p) => ctx.violation("inplace.panic", case, format!("float in-place check: unexpected panic: {p}"), None),
+        }
+    }
+    ctx.rule("in-place ops against independent arithmetic: all 12 integer formats as 2-channel frames, add_in_place and add_in_place_with_amp_per_channel (7 gain frames including all-2.0, all--1.0 and all-0.5) over every pair of a destination amplitude (0, +-1, the byte / 16-bit carries +-255..257, 65535, 100003, both extremes and their neighbours, half scale) and an added amplitude in the Signed companion's units (0, +-1, 3, -255, 257, -256, 768, -769, ...), result == add in the Signed companion of the value scaled in the Float companion with correctly rounded conversions (common::refmodel), pairs whose mathematical result leaves the format are compared with the element-wise frame operation itself (saturation); f32 and f64 frames against native a + b * g over values around rounding boundaries");
     ctx.add_evals(evals);
     ctx.set("exhaustive", json!(true));
     ctx.set("exhaustive_scope", json!("N 1..=32 complete, 14 formats complete, L bounded by 3N+2; in-place length pairs bounded by 5"));
